@@ -229,12 +229,19 @@ type f2b struct {
 	pos     string
 	acc     func() Expr // accumulator lvalue
 	condN   int
+	// optional overrides used by F2L (function-local accumulators)
+	markAcc func(id uint32) Expr // accumulator lvalue for the marker with this id
+	retSeq  func() []Stmt        // statements that make up a `return`
 }
 
 func (b *f2b) id() uint32 { b.nextID++; return b.nextID }
 
 func (b *f2b) mark() Stmt {
 	// acc = acc * 31u + id
+	if b.markAcc != nil {
+		id := b.id()
+		return &Assign{LHS: b.markAcc(id), Op: "=", RHS: &Bin{Op: "+", L: &Bin{Op: "*", L: b.markAcc(id), R: LitU(31), Ty: TU32}, R: LitU(id), Ty: TU32}}
+	}
 	return &Assign{LHS: b.acc(), Op: "=", RHS: &Bin{Op: "+", L: &Bin{Op: "*", L: b.acc(), R: LitU(31), Ty: TU32}, R: LitU(b.id()), Ty: TU32}}
 }
 
@@ -280,6 +287,9 @@ func (b *f2b) stmt(s *cf) []Stmt {
 	case cfContinue:
 		return []Stmt{&Continue{}}
 	case cfReturn:
+		if b.retSeq != nil {
+			return b.retSeq()
+		}
 		return []Stmt{b.ret()}
 	case cfCall:
 		return []Stmt{&ExprStmt{X: &Call{Fn: "h", Args: []Expr{L("c0", TU32)}, User: true}}}
